@@ -25,8 +25,8 @@
 //   D1  list::operator=(list&&) with an EMPTY source and a target that still has members,
 //   D2  base(base&&) / base::operator=(base&&) from a source that is linked to nothing but itself (after unlink(), after
 //       having been moved from, last member of a headless ring).
-// `avoid=0` explores all histories (D1/D2 show up as violations); `avoid=1` excludes exactly the histories that perform
-// D1 or D2 by assumption and must hold without any violation - this pins every violation of avoid=0 on D1/D2.
+// h_list_all explores all histories (D1/D2 show up as violations); h_list_safe excludes exactly the histories that perform
+// D1 or D2 by assumption and must hold without any violation - this pins every violation of h_list_all on D1/D2.
 //
 // Outside the claim: histories longer than the bounds below, pools above 3 lists / 4 elements, concurrent use.
 //@property C11
@@ -315,10 +315,10 @@ void init(world &w, unsigned const how)
   }
 }
 
-void history()
+void history(bool const avoid)
 {
   world w;
-  w.avoid = verif_param("avoid") != 0;
+  w.avoid = avoid;
   init(w, static_cast<unsigned>(verif_param("init")));
   unsigned const steps{static_cast<unsigned>(verif_param("steps"))};
   unsigned const op2{static_cast<unsigned>(verif_param("op2"))}; // 9: the solver's choice
@@ -340,10 +340,11 @@ void history()
 }
 }
 
-VERIF_HARNESS(h_list_history) { history(); }
+VERIF_HARNESS(h_list_all) { history(false); }
+VERIF_HARNESS(h_list_safe) { history(true); }
 
-//@harness h_list_history param avoid=0..1 param init=0..4 param steps=1..2 param op1=0..8 param op2=9 if (init>0)|(op1==0)|(op1>=5) tier=quick leak=1 paths=200000
-//@harness h_list_history param avoid=0..1 param init=1 param steps=3 param op1=0..8 param op2=9 tier=quick leak=1 paths=200000
-//@harness h_list_history param avoid=0..1 param init=0,2,3,4 param steps=3 param op1=0..8 param op2=9 if (init>0)|(op1==0)|(op1>=5) tier=thorough leak=1 paths=200000
-//@harness h_list_history param avoid=1 param init=1,3 param steps=4 param op1=0..8 param op2=0..8 tier=thorough leak=1 paths=400000 wall=1500
-//@harness h_list_history param avoid=1 param init=1 param steps=5 param op1=7 param op2=0..8 tier=thorough leak=1 paths=1000000 wall=1700 cost=9
+//@harness h_list_{V} for V in all,safe param init=0..4 param steps=1..2 param op1=0..8 param op2=9 if (init>0)|(op1==0)|(op1>=5) tier=quick leak=1 paths=200000
+//@harness h_list_{V} for V in all,safe param init=1 param steps=3 param op1=0..8 param op2=9 tier=quick leak=1 paths=200000
+//@harness h_list_{V} for V in all,safe param init=0,2,3,4 param steps=3 param op1=0..8 param op2=9 if (init>0)|(op1==0)|(op1>=5) tier=thorough leak=1 paths=200000
+//@harness h_list_safe param init=1,3 param steps=4 param op1=0..8 param op2=0..8 tier=thorough leak=1 paths=400000 wall=1500
+//@harness h_list_safe param init=1 param steps=5 param op1=7 param op2=0..8 tier=thorough leak=1 paths=1000000 wall=1700 cost=9
